@@ -8,5 +8,5 @@ CONSTANTS
   MaxLen = 7
   SplitMaxP = 0
   SplitMaxAmt = 0
-  Defects = {"merge_min_start"}
+  Defects = {}
 CHECK_DEADLOCK FALSE
